@@ -142,7 +142,7 @@ func (e *Engine) pureInstr(fr *frame, in ssa.Instruction) bool {
 		return onlyFeedsNoop(x, 0)
 	case *ssa.FieldAddr:
 		p, ok := e.get(fr, x.X).(Ptr)
-		return ok && p.loc != nil && len(e.world.watch) == 0
+		return ok && p.loc != nil && !e.watchedField(x)
 	case *ssa.IndexAddr:
 		idx, ok := e.get(fr, x.Index).(*Term)
 		if !ok || idx.Op != "c" {
